@@ -60,8 +60,10 @@ PROPS["C02"] = {"quick": [Z("ZZ_C02_Retry", labels=["nesting:", "stats:"], **_re
 PROPS["C10"] = {"quick": [Z("ZZ_C10_Fallback", labels=["fallback:", "nesting:"], **_fb_q), L2("ZZ_S07c_TimeoutFallback", 1, labels=["fallback:"], note="fallback function running while an enclosing Timeout fires: keeps seeing the failed outcome, applied once; P=1")],
                 "thorough": [Z("ZZ_C10_Fallback", labels=["fallback:", "nesting:"], params={"execs": 2, "max_inv": 4, "max_retries": 2}, native=True, time_limit_s=9000, note="fallback kinds x handle conditions x inner policy; 2 executions; <=4 invocations; maxRetries<=2"),
                              L2("ZZ_S07c_TimeoutFallback", 3, labels=["fallback:"], note="P=3")]}
-PROPS["C11"] = {"quick": [Z("ZZ_C11_Cache", labels=["cache:", "nesting:"], **_ca_q)],
-                "thorough": [Z("ZZ_C11_Cache", labels=["cache:", "nesting:"], params={"execs": 3, "max_inv": 3, "max_retries": 1, "handles": 3}, native=True, time_limit_s=9000, note="3 executions; <=3 invocations; all key kinds; symbolic prefilled content")]}
+PROPS["C11"] = {"quick": [Z("ZZ_C11_Cache", labels=["cache:", "nesting:"], **_ca_q),
+                          L2("ZZ_C11b_OverlappingKeys", 1, labels=["cache:"], note="two executions with different context keys through one cache policy, nested or concurrent (symbolic durations): each result stored under its own key; P=1")],
+                "thorough": [Z("ZZ_C11_Cache", labels=["cache:", "nesting:"], params={"execs": 3, "max_inv": 3, "max_retries": 1, "handles": 3}, native=True, time_limit_s=9000, note="3 executions; <=3 invocations; all key kinds; symbolic prefilled content"),
+                             L2("ZZ_C11b_OverlappingKeys", 3, labels=["cache:"], note="overlapping executions with different context keys; P=3")]}
 PROPS["C12"] = {
     "quick": [J("policy", "ZZ_H12a_IsFailure", native=True, params={"max_regs": 3}, note="every order/subset of <=3 handle registrations x 16 error shapes x symbolic results"),
               J("policy", "ZZ_H12b_IsAbortable", native=True, params={"max_regs": 3}, note="every order/subset of <=3 abort registrations x 16 error shapes"),
@@ -111,12 +113,14 @@ PROPS["C03"] = {
         J("circuitbreaker", "ZZ_H03a_RingStep", solver="z3", native=True, params={"max_ring": 6}, note="inductive ring step, capacity 1..6, arbitrary bits/head/occupancy under Inv_c; real bitset package interpreted"),
         J("circuitbreaker", "ZZ_H03c_TimedStep", solver=INT, native=True, params={"bucket_base": 1, "bucket_cfgs": 2}, note="inductive time-bucket step; bucketNanos in {7,100}; head on grid {0,10,10^6}+ring position; arbitrary counts<2^16; t symbolic <2^47"),
         J("circuitbreaker", "ZZ_H03b_RateLemma", solver=FPS, native=True, params={"max_n": 8}, note="failureRate/successRate of both stats types = rounded percentage for all 0<=x<=n<=8 (FP division of symbolic ints)"),
+        J("circuitbreaker", "ZZ_H03d_StateStep", solver="z3", native=True, params={"max_cap": 4}, note="inductive state step from an arbitrary window content (symbolic success/failure counts, expiry/eviction nondeterministic) in closed / half-open / open state: 4 configuration families with symbolic thresholds (capacity<=4, rate 1..100), symbolic delay and clock; decision, permits, events, remaining delay"),
         J("circuitbreaker", "ZZ_H03g_History", solver=INT, native=True, params={"ops": 3, "record_ops": 2}, time_limit_s=900, note="bounded history (3 ops incl. RecordResult/RecordError) through the public API vs reference machine; 7 configurations (count, ratio, success-threshold, period-count, period-rate); symbolic delay/instants (count-based), boundary grid (time-based)"),
     ],
     "thorough": [
         J("circuitbreaker", "ZZ_H03a_RingStep", solver="z3", native=True, params={"max_ring": 12}, time_limit_s=1500, note="inductive ring step, capacity 1..12"),
         J("circuitbreaker", "ZZ_H03c_TimedStep", solver=INT, native=True, time_limit_s=1500, note="inductive time-bucket step; bucketNanos in {1,7,100,10^8,6*10^9}"),
         J("circuitbreaker", "ZZ_H03b_RateLemma", solver=FPS, native=True, params={"max_n": 32}, time_limit_s=3000, qtimeout_s=300, note="rate lemma for n<=32"),
+        J("circuitbreaker", "ZZ_H03d_StateStep", solver="z3", native=True, params={"max_cap": 8}, time_limit_s=3000, note="inductive state step, capacities <= 8"),
         J("circuitbreaker", "ZZ_H03g_History", solver=INT, native=True, params={"ops": 3, "record_ops": 2}, time_limit_s=3000, note="bounded history (3 ops) vs reference machine; all 7 configurations"),
         J("circuitbreaker", "ZZ_H03g_History", solver=INT, native=True, params={"ops": 4, "cfgs": 4}, time_limit_s=5000, note="bounded history (4 ops) vs reference machine; the 4 count/ratio/success-threshold configurations"),
     ],
